@@ -65,7 +65,7 @@ def check_tree(ctx, case):
             assigns = G.assignments(vs, 8)
             sides = None
             if is_eq:
-                sides = [(1, 2), (2, 1)] if (n is root and name in ("CS1", "CS0")) else [(1, 1), (2, 2)]
+                sides = "multiset" if (A.kind(n) == "EqualExpression" and name in ("CS1", "CS0")) else [(1, 1), (2, 2)]
             try:
                 verdict, info = Q.compare_expressions(ctx, root, res, ap.fresh_consts, assigns, sides)
             except X.Malformed as e:
